@@ -738,6 +738,32 @@ func init() {
 	strPred("strings.HasPrefix", strings.HasPrefix, func(a, b *Term) *Term { return mkPrefixOf(b, a) })
 	strPred("strings.HasSuffix", strings.HasSuffix, func(a, b *Term) *Term { return mkSuffixOf(b, a) })
 	strPred("strings.Contains", strings.Contains, func(a, b *Term) *Term { return mkContains(a, b) })
+	reg("strings.LastIndex", func(ex *Exec, fn *ssa.Function, args []Value, site string) Value {
+		a, aok := args[0].(string)
+		b, bok := args[1].(string)
+		if aok && bok {
+			return int64(strings.LastIndex(a, b))
+		}
+		if !bok || b == "" {
+			panic(pathAbort{"unsupported: symbolic needle in strings.LastIndex"})
+		}
+		// the needle has a character no variable part can contain: it can only occur inside constant atoms
+		atoms := catAtoms(strTerm(args[0]))
+		for _, x := range atoms {
+			if x.Op != "cs" && !ex.cannotContain(x, b) {
+				panic(pathAbort{"unsupported: strings.LastIndex on this symbolic shape"})
+			}
+		}
+		for k := len(atoms) - 1; k >= 0; k-- {
+			if atoms[k].Op == "cs" {
+				if i := strings.LastIndex(atoms[k].S, b); i >= 0 {
+					l := append(append([]*Term{}, atoms[:k]...), mkStr(atoms[k].S[:i]))
+					return lower(lenSum(l))
+				}
+			}
+		}
+		return int64(-1)
+	})
 	reg("strings.ToLower", func(ex *Exec, fn *ssa.Function, args []Value, site string) Value {
 		if a, ok := args[0].(string); ok {
 			return strings.ToLower(a)
@@ -751,6 +777,20 @@ func init() {
 		}
 		// s = l ++ r ++ t with l, t ASCII white space only and r neither starting nor ending with white space
 		s := strTerm(args[0])
+		{
+			// constant white space at the ends is cut off; if what remains provably has no white space at its ends, done
+			at := append([]*Term{}, catAtoms(s)...)
+			if at[0].Op == "cs" {
+				at[0] = mkStr(strings.TrimLeft(at[0].S, " \t\n\v\f\r"))
+			}
+			if at[len(at)-1].Op == "cs" {
+				at[len(at)-1] = mkStr(strings.TrimRight(at[len(at)-1].S, " \t\n\v\f\r"))
+			}
+			inner := mkConcat(at...)
+			if ex.trimmedEnds(inner, " \t\n\v\f\r", true, true) {
+				return lower(inner)
+			}
+		}
 		ws := "(re.union (str.to_re \" \") (str.to_re \"\\u{9}\") (str.to_re \"\\u{a}\") (str.to_re \"\\u{b}\") (str.to_re \"\\u{c}\") (str.to_re \"\\u{d}\"))"
 		l := ex.freshVar("trimL", SStr, "string", false)
 		r := ex.freshVar("trimmed", SStr, "string", false)
